@@ -9,6 +9,7 @@ import Driver.C03
 import Driver.C07
 import Driver.C04
 import Driver.C05
+import Driver.C17
 /-
   kdriver: one request per line on stdin, `model<TAB>spec` per line on stdout.
   Anything it cannot parse is answered `bad-op<TAB>bad-op` (never a default value).
@@ -32,6 +33,7 @@ def dispatch (line : String) : String :=
       else if op.startsWith "chr." then Driver.C07.handleChr (op.drop 4).toString args
       else if op.startsWith "chars." then Driver.C07.handleChars (op.drop 6).toString args
       else if op.startsWith "b." || op.startsWith "st." then (Driver.C04.handle op args).orElse fun _ => Driver.C05.handle op args
+      else if op = "prog" ∨ op = "prog.v" then Driver.C17.handle op args
       else none
   match r with
   | some (m, s) => m ++ "\t" ++ s
